@@ -152,15 +152,28 @@ pub fn one_history(cfg: &Cfg, r: &mut Report, rt: &tokio::runtime::Runtime, rng:
     if idx == 0 {
         directed_rebuild_race(r);
     }
+    if idx % 16 == 0 {
+        // every shard runs this at least once (shard i owns idx i*k…); it is cheap
+        directed_concurrent_snapshots(r, rt, rng);
+    }
     let s = crate::sched::sched();
     s.reset();
     s.record(true, &["cache.rebuild.created"]);
     let mut rebuilt: std::collections::HashSet<String> = std::collections::HashSet::new();
-    let noise = [0u64, 0, 400, 1500][rng.usize(4)];
+    let noise = [0u64, 400, 400, 1500][rng.usize(4)];
     if noise > 0 {
         s.set_noise(
             rng.next_u64(),
-            &[("cont.cache.enter", noise), ("cont.cache.exit", noise), ("session.emit.*", noise / 2), ("task.emit.*", noise / 2), ("log.append.enter", noise / 2)],
+            &[
+                ("cont.cache.enter", noise),
+                ("cont.cache.exit", noise),
+                ("session.emit.*", noise / 2),
+                ("task.emit.*", noise / 2),
+                ("log.append.enter", noise / 2),
+                // sessions and tasks that end together write their snapshots together
+                ("snapshot.created", noise * 2),
+                ("snapshot.written", noise),
+            ],
         );
     }
     let with_provider = rng.chance(1, 3);
@@ -170,7 +183,7 @@ pub fn one_history(cfg: &Cfg, r: &mut Report, rt: &tokio::runtime::Runtime, rng:
     let threads = 1 + rng.usize(4);
     let ops_per = 6 + rng.usize(cfg.tier.pick(20, 50));
     let n_conts = 1 + rng.usize(3);
-    let n_sessions = 2 + rng.usize(5);
+    let n_sessions = if rng.chance(1, 4) { 8 + rng.usize(9) } else { 2 + rng.usize(5) };
     let n_tasks = rng.usize(3);
     let phases = if rng.chance(1, 3) { 2 } else { 1 };
 
@@ -588,6 +601,91 @@ fn dedup_runs(types: &[&str]) -> String {
 }
 
 /// true when a violation was reported
+/// Directed: many sessions and a few tasks of ONE engine end at the same time, with delays injected right after
+/// the snapshot file is created, so that their snapshot writes overlap. Every snapshot must afterwards hold
+/// exactly the frames the log holds for that stream.
+fn directed_concurrent_snapshots(r: &mut Report, rt: &tokio::runtime::Runtime, rng: &mut Rng) {
+    let s = crate::sched::sched();
+    s.reset();
+    s.set_noise(rng.next_u64(), &[("snapshot.created", 4000), ("snapshot.written", 500)]);
+    let store = Store::new("c03snap");
+    let Ok(app) = App::open(&store, None) else {
+        r.inconclusive("concurrent snapshots: cannot open engine");
+        return;
+    };
+    let n = 12 + rng.usize(20);
+    let mut sids: Vec<String> = Vec::new();
+    let mut tids: Vec<String> = Vec::new();
+    let app2 = app.clone();
+    let n_tasks = 2 + rng.usize(3);
+    rt.block_on(async {
+        for i in 0..n {
+            let h = app2.engine.create_session();
+            sids.push(h.session_id.clone());
+            app2.engine.spawn_session(h, format!("prompt {i}"), None, None);
+        }
+        for i in 0..n_tasks {
+            let (st, v) = app2.json("POST", "/tasks", Some(&json!({"tool":"bash","args":{"command": format!("echo t{i}")}}))).await;
+            if st == 201 {
+                if let Some(id) = v.get("task_id").and_then(|x| x.as_str()) {
+                    tids.push(id.to_string());
+                }
+            }
+        }
+        let data = store.data.clone();
+        let all: Vec<(String, &str)> = sids.iter().map(|x| (x.clone(), "snapshots")).chain(tids.iter().map(|x| (x.clone(), "task_snapshots"))).collect();
+        // every stream's terminal frame is in the log, then a grace period for the snapshot writes (they happen after
+        // the terminal frame is logged and are delayed by the injected noise)
+        let log_path = store.log_path();
+        let _ = wait_for(Duration::from_secs(20), || {
+            let t = String::from_utf8_lossy(&std::fs::read(&log_path).unwrap_or_default()).to_string();
+            let ended = t.matches("\"type\":\"session_ended\"").count();
+            (ended >= sids.len()).then_some(())
+        })
+        .await;
+        let _ = wait_for(Duration::from_secs(5), || all.iter().all(|(id, d)| data.join(d).join(format!("{id}.json")).exists()).then_some(())).await;
+        tokio::time::sleep(Duration::from_millis(150)).await;
+    });
+    s.reset();
+    drop(app);
+    let Ok(frames) = truth::parse_log(&store.log_bytes_settled()) else {
+        r.inconclusive("concurrent snapshots: log unreadable");
+        return;
+    };
+    r.eval();
+    r.distinct_str("directed_concurrent_snapshots");
+    for (id, kind, dir) in sids.iter().map(|x| (x, "session", "snapshots")).chain(tids.iter().map(|x| (x, "task", "task_snapshots"))) {
+        let in_log: Vec<Value> = truth::stream(&frames, kind, id).iter().map(|f| f.v.clone()).collect();
+        if in_log.is_empty() {
+            continue;
+        }
+        let wit = json!({"part": "B", "case": "directed_concurrent_snapshots", "kind": kind, "sessions": sids.len(), "tasks": tids.len()});
+        r.count("b_concurrent_snapshots_compared", 1);
+        match std::fs::read(store.data.join(dir).join(format!("{id}.json"))).ok().and_then(|b| serde_json::from_slice::<Vec<Value>>(&b).ok()) {
+            None => r.violation(
+                &format!("C03/history/snapshot_unreadable/{kind}/streams_ending_together"),
+                &format!("{kind} snapshot is missing or unreadable after {} sessions and {} tasks of one engine ended together", sids.len(), tids.len()),
+                wit,
+            ),
+            Some(snap) => {
+                let same = snap.len() == in_log.len() && snap.iter().zip(in_log.iter()).all(|(a, b)| strict_eq(a, b));
+                if !same {
+                    r.violation(
+                        &format!("C03/history/snapshot_vs_log/{kind}/streams_ending_together"),
+                        &format!(
+                            "{kind} snapshot holds {} frames (first stream id {:?}), the log holds {} for this stream",
+                            snap.len(),
+                            snap.first().and_then(|f| f.get("stream_id")).cloned(),
+                            in_log.len()
+                        ),
+                        wit,
+                    );
+                }
+            }
+        }
+    }
+}
+
 fn compare(
     r: &mut Report,
     kind: &str,
